@@ -207,26 +207,26 @@ def with_plain(draw):
 
 def _leaf_facet(name):
     return Facet("leaf:" + name, check, strategy=lambda tier, n=name: _wrap(treg.leaf_spec(n)),
-                 budget={"quick": 100, "thorough": 1500}, shards={"quick": 1, "thorough": 2},
+                 budget={"quick": 200, "thorough": 1500}, shards={"quick": 1, "thorough": 2},
                  min_nontrivial={"quick": 0, "thorough": 0}, case_timeout=120)
 
 
 def _pil_facet(name):
     return Facet("pil-input:" + name, check, strategy=lambda tier, n=name: _wrap(treg.leaf_spec(n)).map(lambda s: dict(s, fam="pil_any")),
-                 budget={"quick": 40, "thorough": 600}, shards={"quick": 1, "thorough": 1},
+                 budget={"quick": 100, "thorough": 600}, shards={"quick": 1, "thorough": 1},
                  min_nontrivial={"quick": 0, "thorough": 0}, case_timeout=120)
 
 
 FACETS = [_leaf_facet(n) for n in treg.LEAVES] + [_pil_facet(n) for n in treg.PIL_OK]
 FACETS += [
     Facet("composites", check, strategy=lambda tier: _wrap(treg.img_composite(depth=3)),
-          budget={"quick": 1200, "thorough": 20000}, shards={"quick": 6, "thorough": 16},
+          budget={"quick": 2400, "thorough": 20000}, shards={"quick": 8, "thorough": 16},
           min_nontrivial={"quick": 300, "thorough": 3000}, case_timeout=120),
     Facet("composites-with-plain-members", check, strategy=lambda tier: _wrap(with_plain()),
-          budget={"quick": 400, "thorough": 6000}, shards={"quick": 4, "thorough": 8},
+          budget={"quick": 1200, "thorough": 6000}, shards={"quick": 6, "thorough": 8},
           min_nontrivial={"quick": 100, "thorough": 1000}, case_timeout=120),
     Facet("pipelines", check,
           strategy=lambda tier: _wrap(st.sampled_from(sorted(treg.PIPELINES)).map(lambda n: {"k": "pipeline", "name": n})),
-          budget={"quick": 150, "thorough": 1500}, shards={"quick": 2, "thorough": 6},
+          budget={"quick": 300, "thorough": 1500}, shards={"quick": 2, "thorough": 6},
           min_nontrivial={"quick": 50, "thorough": 300}, case_timeout=300),
 ]
